@@ -89,7 +89,7 @@ def floors(tier):
     q = tier == "quick"
     return {"schedules.single": 3000 if q else 100000, "points.in_shared_write_code": 300 if q else 5000, "b_ran_inside_a": 3000, "points.line": 2000,
             "points.instruction": 300, "shared_writers_discovered": 1, "nested.reentries": 200, "stress.runs": 200, "stress.overlapping_compiles": 1,
-            "schedules.budget_documents": 4, "nested.link_hook": 50, "schedules.double": 100 if q else 5000, "schedules.pingpong": 1000 if q else 50000, "pingpong.a_parked_in_shared_write_code": 300}
+            "nested.budget_documents": 4, "nested.link_hook": 50, "schedules.double": 100 if q else 5000, "schedules.pingpong": 1000 if q else 50000, "pingpong.a_parked_in_shared_write_code": 300}
 
 
 _used = {}
@@ -146,7 +146,7 @@ class _Solo(dict):
         if d == "FLOOD":
             return do_call(C.build(sc["conf"]), api, d)   # not memoised: the text changes with every schedule
         if d == "S":
-            self[key] = do_call(C.build(sc["conf"]), api, d)
+            self[key] = do_call(make_instance(sc), api, d)
             return self[key]
         raise KeyError(key)
 
@@ -345,12 +345,14 @@ def nested_case(ctx, case):
         depth = [0]
 
         def inner():
+            if target_is_self is None:
+                return None  # third variant: the same plug-in, but it does not re-enter at all
             if depth[0]:
                 return None  # the harness re-enters once, not recursively
             depth[0] += 1
             try:
                 env = {}
-                r = getattr(other, inner_api)(DOC[inner_doc], env)
+                r = getattr(other, inner_api)(doc_text(inner_doc), env)
                 if not isinstance(r, str):
                     r = [t.as_dict() for t in r]
                 log.append((r, dict(env)))
@@ -359,7 +361,7 @@ def nested_case(ctx, case):
                 depth[0] -= 1
         if kind == "core":
             def rule(state):
-                if not getattr(state, "_vf_nested", False) and state.src == DOC[outer_doc]:
+                if not getattr(state, "_vf_nested", False) and state.src == doc_text(outer_doc):
                     inner()
             md.core.ruler.after(case.get("after", "block"), "vf_nested", rule)
         elif kind == "render_rule":
@@ -378,6 +380,16 @@ def nested_case(ctx, case):
                 inner()
                 return ""
             md.options["highlight"] = hl
+        elif kind == "block_rule":
+            # a never-matching block rule, also consulted as a terminator (table rows, paragraphs, quotes): re-enters once, early
+            fired = [False]
+
+            def brule(state, startLine, endLine, silent):
+                if not fired[0] and startLine >= 2 and state.src == doc_text(outer_doc):
+                    fired[0] = True
+                    inner()
+                return False
+            md.block.ruler.before("paragraph", "vf_nested_block", brule, {"alt": ["paragraph", "reference", "blockquote", "list"]})
         elif kind == "link_hook":
             # application override of the link validator that itself uses the parser (e.g. renders an audit note)
             stock = md.validateLink
@@ -401,11 +413,11 @@ def nested_case(ctx, case):
             md.inline.ruler.before("backticks", "vf_nested", irule)
         return md, log
     out = []
-    for target_is_self in (True, False):
+    for target_is_self in (True, False, None):
         md, log = build(target_is_self)
         env = {"vf_outer": True}
         try:
-            r = md.render(DOC[outer_doc], env)
+            r = md.render(doc_text(outer_doc), env)
         except BaseException as e:  # noqa: BLE001
             r = f"EXC {type(e).__name__}: {e}"
         env.pop("vf_outer", None)
@@ -420,6 +432,11 @@ def nested_case(ctx, case):
         which = "outer result" if out[0][0] != out[1][0] else ("outer env" if out[0][1] != out[1][1] else "inner results")
         ctx.violation("nested-reentry-differs", f"{which} differ when the plug-in re-enters the same instance instead of a separate one: "
                       f"{str(out[0][0])[:200]!r} vs {str(out[1][0])[:200]!r} | case={case}", case)
+    if out[0][:2] != out[2][:2]:
+        # (state shared beyond the instance - per thread, per process - hits the "separate instance" variant just the same)
+        which = "outer result" if out[0][0] != out[2][0] else "outer env"
+        ctx.violation("nested-reentry-changes-outer-call", f"{which} of the outer call differs from the same call with a plug-in that does not re-enter: "
+                      f"{str(out[0][0])[:200]!r} vs {str(out[2][0])[:200]!r} | case={case}", case)
     for (r, e) in out[0][2]:
         want = _solo[(sc["name"], inner_api, inner_doc)]
         if (r, e) != want:
@@ -509,7 +526,7 @@ def replay(ctx, case):
     if case.get("kind") == "stress":
         stress(ctx, 200, case.get("threads", 8))
         return
-    if case.get("kind") in ("core", "render_rule", "highlight", "inline_rule", "link_hook"):
+    if case.get("kind") in ("core", "render_rule", "highlight", "inline_rule", "link_hook", "block_rule"):
         nested_case(ctx, case)
         return
     sched = PingPong(_libdir, _fine)
@@ -598,18 +615,6 @@ def run(ctx):
                     check_case(ctx, sched, case)
                     if idx % 4001 == 0:
                         ctx.sample(dict(case, parked_at=sched.park_at.get("A")))
-        # document-wide budgets and counters (table auto-completion): two calls that each stay below the limit, together above it
-        sc = SCENARIOS[1]
-        calls = [("render", "S"), ("render", "S")]
-        total, _f = total_events(sched, sc, calls[0])
-        fr = (0.1, 0.35, 0.6, 0.85) if ctx.quick else tuple(x / 20 for x in range(1, 20))
-        for j, f in enumerate(fr):
-            idx += 1
-            if not ctx.mine(idx):
-                continue
-            ctx.count("schedules.budget_documents")
-            check_case(ctx, {"scenario": sc["name"], "calls": [list(c) for c in calls], "k1": max(1, int(total * f))})
-            check_case(ctx, {"mode": "pingpong", "scenario": sc["name"], "calls": [list(c) for c in calls], "k1": max(1, int(total * f)), "k2": max(1, int(total * (1 - f)))})
         mark("single")
         # two pre-emptions, concentrated on the first-use windows
         n2 = ctx.scale(2500, 200000)
@@ -632,7 +637,7 @@ def run(ctx):
         if sc.get("used"):
             continue   # plug-ins would accumulate on the long-lived instance
         for kind, extra in (("core", {"after": "block"}), ("core", {"after": "normalize"}), ("core", {"after": "inline"}), ("render_rule", {"token": "paragraph_open"}),
-                            ("render_rule", {"token": "text"}), ("highlight", {}), ("inline_rule", {}), ("link_hook", {})):
+                            ("render_rule", {"token": "text"}), ("highlight", {}), ("inline_rule", {}), ("link_hook", {}), ("block_rule", {})):
             for outer in ("A", "B", "C", "T"):
                 for inner in ("B", "I", "C"):
                     for inner_api in ("render", "parseInline", "parse"):
@@ -640,6 +645,14 @@ def run(ctx):
                         if ctx.mine(k):
                             nested_case(ctx, dict({"kind": kind, "scenario": sc["name"], "outer": outer, "inner": inner, "inner_api": inner_api}, **extra))
     mark("nested")
+    # document-wide budgets and counters: a table that auto-completes 35 700 cells re-entered by a render of the same document
+    # (each below the 65 536-cell budget, together above it)
+    for sc in SCENARIOS[1:3]:
+        for inner_api in ("render", "parse"):
+            k += 1
+            if ctx.mine(k):
+                ctx.count("nested.budget_documents")
+                nested_case(ctx, {"kind": "block_rule", "scenario": sc["name"], "outer": "S", "inner": "S", "inner_api": inner_api})
     stress(ctx, ctx.scale(800, 40000), 8 if ctx.shard % 2 else 16)
     mark("stress")
 
